@@ -4,8 +4,8 @@
    Generic in the state type [S] and in the primitives (None = a run-time check failed / panic;
    pointer 0 = nilptr).  The byte writes a wrapper performs (memory.zero / memory.move) are returned
    as a list next to the result, so that "what is written" is part of the statement.
-   Sizes are usize: [count * #T] is reduced mod 2^64 exactly as the code computes it (there is no
-   overflow test in the source).  No proofs in this file. *)
+   Sizes are usize: [count * #T] is reduced mod 2^64 exactly as the code computes it, behind the
+   overflow test [count <= usize.max // #T] of the span operations (repair 942989e).  No proofs in this file. *)
 From Coq Require Import ZArith List Bool.
 From Base Require Import LuaInt.
 From C11 Require Import Gen Model.
@@ -80,8 +80,11 @@ Definition i_xrealloc0 (s : S) (p newsize oldsize : Z) : option (S * Z * list bw
 Definition span := (Z * Z)%type.
 Definition empty_span : span := (0, 0).
 
+(* Allocator_max_span_count(T): the largest element count whose byte size fits in usize *)
+Definition max_span_count (tsize : Z) : Z := if tsize >? 1 then (two64 - 1) / tsize else two64 - 1.
+
 Definition i_spanalloc (s : S) (tsize count : Z) : option (S * span) :=
-  if count >? 0 then
+  if (count >? 0) && (count <=? max_span_count tsize) then
     match p_alloc s (w64 (count * tsize)) with
     | Some (s', p) => Some (s', if p =? 0 then empty_span else (p, count))
     | None => None
@@ -89,7 +92,7 @@ Definition i_spanalloc (s : S) (tsize count : Z) : option (S * span) :=
   else Some (s, empty_span).
 
 Definition i_spanalloc0 (s : S) (tsize count : Z) : option (S * span * list bwrite) :=
-  if count >? 0 then
+  if (count >? 0) && (count <=? max_span_count tsize) then
     match i_alloc0 s (w64 (count * tsize)) with
     | Some (s', p, w) => Some (s', (if p =? 0 then empty_span else (p, count)), w)
     | None => None
@@ -107,6 +110,7 @@ Definition i_spandealloc (s : S) (sp : span) : option S :=
 
 Definition i_spanrealloc (s : S) (tsize : Z) (sp : span) (count : Z) : option (S * span) :=
   if (snd sp =? 0) && (count >? 0) then i_spanalloc s tsize count
+  else if count >? max_span_count tsize then Some (s, sp)
   else
     match p_realloc s (fst sp) (w64 (count * tsize)) (w64 (snd sp * tsize)) with
     | Some (s', p) => Some (s', if (count >? 0) && (p =? 0) then sp else (p, count))
@@ -115,6 +119,7 @@ Definition i_spanrealloc (s : S) (tsize : Z) (sp : span) (count : Z) : option (S
 
 Definition i_spanrealloc0 (s : S) (tsize : Z) (sp : span) (count : Z) : option (S * span * list bwrite) :=
   if (snd sp =? 0) && (count >? 0) then i_spanalloc0 s tsize count
+  else if count >? max_span_count tsize then Some (s, sp, [])
   else
     match i_realloc0 s (fst sp) (w64 (count * tsize)) (w64 (snd sp * tsize)) with
     | Some (s', p, w) => Some (s', (if (count >? 0) && (p =? 0) then sp else (p, count)), w)
